@@ -125,7 +125,24 @@ fn main() {
         let n = ns[0];
         let nk = (n + extra_k).max(1) as u8;
         let props = args.props();
-        let code = mc::with_n!(n, run_replay::<Kx, Vx>(nk, nv, alpha, &path, op, props));
+        if args.flag("nan") {
+            mc::payload::set_nan_code(Some(nk - 1));
+        }
+        // the replay runs on the same element types as the exploration that produced it
+        let code = match args.get("payload").unwrap_or("kx") {
+            "nodrop" => mc::with_n!(n, run_replay::<mc::payload::Kn, mc::payload::Vn>(nk, nv, alpha, &path, op, props)),
+            "u8" => mc::with_n!(n, run_replay::<u8, u8>(nk, nv, alpha, &path, op, props)),
+            "string" => mc::with_n!(n, run_replay::<String, String>(nk, nv, alpha, &path, op, props)),
+            "path" => mc::with_n!(n, run_replay::<std::path::PathBuf, u8>(nk, nv, alpha, &path, op, props)),
+            "unitkey" => mc::with_n!(n, run_replay::<(), Vx>(nk, nv, alpha, &path, op, props)),
+            "zstval" => mc::with_n!(n, run_replay::<Kx, ()>(nk, nv, alpha, &path, op, props)),
+            "zstcount" => mc::with_n!(n, run_replay::<Kx, mc::payload::Zc>(nk, nv, alpha, &path, op, props)),
+            "big" => mc::with_n!(n, run_replay::<u8, Big>(nk, nv, alpha, &path, op, props)),
+            "zst" => mc::with_n!(n, run_replay::<(), ()>(nk, nv, alpha, &path, op, props)),
+            "aligned" => mc::with_n!(n, run_replay::<u8, mc::payload::Al>(nk, nv, alpha, &path, op, props)),
+            "strbig" => mc::with_n!(n, run_replay::<String, Big>(nk, nv, alpha, &path, op, props)),
+            _ => mc::with_n!(n, run_replay::<Kx, Vx>(nk, nv, alpha, &path, op, props)),
+        };
         std::process::exit(code);
     }
     let hist_depth = args.usize("hist", 0);
@@ -148,8 +165,10 @@ fn main() {
             "nodrop" => mc::with_n!(n, run_bfs::<mc::payload::Kn, mc::payload::Vn>(&mut rep, nk, nv, alpha, threads, &caps)),
             "u8" => mc::with_n!(n, run_bfs::<u8, u8>(&mut rep, nk, nv, alpha, threads, &caps)),
             "string" => mc::with_n!(n, run_bfs::<String, String>(&mut rep, nk, nv, alpha, threads, &caps)),
+            "path" => mc::with_n!(n, run_bfs::<std::path::PathBuf, u8>(&mut rep, nk, nv, alpha, threads, &caps)),
             "unitkey" => mc::with_n!(n, run_bfs::<(), Vx>(&mut rep, nk, nv, alpha, threads, &caps)),
             "zstval" => mc::with_n!(n, run_bfs::<Kx, ()>(&mut rep, nk, nv, alpha, threads, &caps)),
+            "zstcount" => mc::with_n!(n, run_bfs::<Kx, mc::payload::Zc>(&mut rep, nk, nv, alpha, threads, &caps)),
             "big" => mc::with_n!(n, run_bfs::<u8, Big>(&mut rep, nk, nv, alpha, threads, &caps)),
             "zst" => mc::with_n!(n, run_bfs::<(), ()>(&mut rep, nk, nv, alpha, threads, &caps)),
             "aligned" => mc::with_n!(n, run_bfs::<u8, mc::payload::Al>(&mut rep, nk, nv, alpha, threads, &caps)),
